@@ -3556,22 +3556,82 @@ theorem lookupLast_some {β : Type} (p : β → Bool) (l : List β) (x : β) (h 
   unfold lookupLast at h
   exact ⟨List.mem_reverse.mp (List.mem_of_find?_eq_some h), List.find?_some h⟩
 
+theorem matchMember_spec (olds : List (Nat × Nat × Nat)) (used : List Nat) (nm : Nat × Nat × Nat) (o : Nat)
+    (h : matchMember olds used nm = some o) :
+    o ∉ used ∧ ∃ m ∈ olds, m.1 = o ∧ m.2.1 = nm.2.1 := by
+  unfold matchMember at h
+  simp only at h
+  split at h
+  · rename_i m hm
+    simp only [Option.some.injEq] at h; subst h
+    have h1 := List.find?_some hm
+    have h2 := List.mem_of_find?_eq_some hm
+    simp only [Bool.and_eq_true, Bool.not_eq_true', beq_iff_eq] at h1
+    rw [List.mem_filter] at h2
+    refine ⟨by simpa using h1.1, m, h2.1, rfl, by simpa using h2.2⟩
+  · split at h
+    · rename_i m hc
+      split at h
+      · cases h
+      · rename_i hu
+        simp only [Option.some.injEq] at h; subst h
+        have hm : m ∈ olds.filter fun x => x.2.1 == nm.2.1 := by rw [hc]; simp
+        rw [List.mem_filter] at hm
+        exact ⟨by simpa using hu, m, hm.1, rfl, by simpa using hm.2⟩
+    · cases h
+
+/-- the pairs of one group: sources are fresh w.r.t. `used`, pairwise distinct, and same-named members -/
+theorem matchMembers_spec (olds : List (Nat × Nat × Nat)) : ∀ (ms : List (Nat × Nat × Nat)) (used : List Nat),
+    (∀ p ∈ matchMembers olds ms used, p.2 ∉ used ∧ ∃ nm ∈ ms, nm.1 = p.1 ∧ ∃ m ∈ olds, m.1 = p.2 ∧ m.2.1 = nm.2.1) ∧
+    ((matchMembers olds ms used).map Prod.snd).Nodup := by
+  intro ms
+  induction ms with
+  | nil => intro used; simp [matchMembers]
+  | cons nm rest ih =>
+    intro used
+    simp only [matchMembers]
+    cases hm : matchMember olds used nm with
+    | none =>
+      simp only
+      obtain ⟨i1, i2⟩ := ih used
+      refine ⟨fun p hp => ?_, i2⟩
+      obtain ⟨a, nm', hn, b⟩ := i1 p hp
+      exact ⟨a, nm', List.mem_cons_of_mem _ hn, b⟩
+    | some o =>
+      simp only
+      obtain ⟨hou, m, hmo, hm1, hm2⟩ := matchMember_spec olds used nm o hm
+      obtain ⟨i1, i2⟩ := ih (o :: used)
+      constructor
+      · intro p hp
+        rcases List.mem_cons.mp hp with rfl | hp
+        · exact ⟨hou, nm, List.mem_cons_self, rfl, m, hmo, hm1, hm2⟩
+        · obtain ⟨a, nm', hn, b⟩ := i1 p hp
+          exact ⟨fun h => a (List.mem_cons_of_mem _ h), nm', List.mem_cons_of_mem _ hn, b⟩
+      · simp only [List.map_cons, List.nodup_cons]
+        refine ⟨?_, i2⟩
+        intro hin
+        rw [List.mem_map] at hin
+        obtain ⟨p, hp, hpo⟩ := hin
+        exact (i1 p hp).1 (by rw [hpo]; exact List.mem_cons_self)
+
 /-- every pair produced for new group `G` joins a member of `G` with a same-named member of an old group
 that has `G`'s name -/
 theorem matchGroup_sound (olds : List GenGroup) (G : GenGroup) (p : Nat × Nat) (hp : p ∈ matchGroup olds G) :
-    ∃ og ∈ olds, og.gname = G.gname ∧ ∃ nm, (p.1, nm) ∈ G.members ∧ (p.2, nm) ∈ og.members := by
+    ∃ og ∈ olds, og.gname = G.gname ∧ ∃ nm ∈ G.members, nm.1 = p.1 ∧ ∃ m ∈ og.members, m.1 = p.2 ∧ m.2.1 = nm.2.1 := by
   unfold matchGroup at hp
   split at hp
   · simp at hp
   · rename_i og hog
     obtain ⟨h1, h2⟩ := lookupLast_some _ _ _ hog
-    simp only [List.mem_filterMap, Option.map_eq_some_iff] at hp
-    obtain ⟨nm, hnm, m, hm, rfl⟩ := hp
-    obtain ⟨h3, h4⟩ := lookupLast_some _ _ _ hm
-    refine ⟨og, h1, by simpa using h2, nm.2, ?_, ?_⟩
-    · exact hnm
-    · have : m.2 = nm.2 := by simpa using h4
-      rw [← this]; exact h3
+    obtain ⟨_, nm, hn, hh⟩ := (matchMembers_spec og.members G.members []).1 p hp
+    exact ⟨og, h1, by simpa using h2, nm, hn, hh⟩
+
+/-- no old member hands its state to two members of one new group -/
+theorem matchGroup_injective (olds : List GenGroup) (G : GenGroup) : ((matchGroup olds G).map Prod.snd).Nodup := by
+  unfold matchGroup
+  split
+  · simp
+  · exact (matchMembers_spec _ G.members []).2
 
 theorem restoreGroups_nodes_other (o : Oracle) (n : Nat) (gs : List ReloadGroup) : ∀ w : World,
     (∀ G ∈ gs, ∀ p ∈ G.pairs, p.1 ≠ n) → (restoreGroups gs w o).1.nodes n = w.nodes n := by
